@@ -211,6 +211,8 @@ def Desc.agreeWith (c : TC → Guard → Bool) (d : Desc) : Bool :=
   (match d.template with
    | .struct => d.hasMarsh && d.hasUnm && d.delegates && structAgreeWith c d
    | .alias => d.uniform && shapeKnown d.valueShape
+   | .namedMap => d.hasUnm && d.uniform && shapeKnown d.valueShape
+   | .special => d.uniform
    | _ => d.hasMarsh && d.hasUnm && d.delegates && d.uniform && shapeKnown d.valueShape)
 
 /-- agreement: the round trip of the kind loses nothing, invents nothing and is stable -/
